@@ -4,14 +4,19 @@
 // generated Dijkstra block carrying real Dijkstra transactions) with its header left
 // untouched,
 //
-//	SUB   every single-byte substitution of every byte after the header, with all 255 other
-//	      values for small bodies and a fixed 16-value type-confusing alphabet otherwise
-//	      (the 648 kB epoch boundary block: one offset in every 2048 / 256);
-//	REENC every single-header re-encoding (space.EnumD1: wider length/integer/tag arguments,
-//	      definite <-> indefinite) of every CBOR item after the header;
+//	SUB   every single-byte substitution of every byte after the header; values per offset:
+//	      all 255 others for bodies <= 64 B (and, thorough, both Byron main blocks), else a
+//	      fixed ordered type-confusing alphabet (b^01, b^80, b+1, b-1, b^20, b^40, 00, ff, 80,
+//	      a0, 40, 60, f6, 9f, 18, 1b) cut to 2 (quick, small bodies) / 2 at every 8th or 32nd
+//	      offset (quick, large bodies) / 16, 6 or 3 at every offset (thorough, by body size);
+//	      the 648 kB epoch boundary block: 2 values at every 16384th / 1024th offset plus 16
+//	      values at its 5 framing bytes (the exact plan is written to the evidence);
+//	REENC every single-header re-encoding (the space.EnumD1 alphabet: wider length/integer/tag
+//	      arguments, definite <-> indefinite) of every CBOR item after the header (quick:
+//	      items at depth <= 3);
 //	TREE  every single tree edit {delete child i, duplicate child i, swap children i,i+1,
-//	      move child i to the end} at every array/map node after the header (depth <= 4 below
-//	      the block array; all children), plus the block array itself (extra/missing segment);
+//	      move child i to the end} at every array/map node after the header (depth <= 3 quick,
+//	      <= 6 thorough; all children), plus the block array itself (extra/missing segment);
 //	TX    consistent transaction-level edits: drop tx i everywhere (body, witness set,
 //	      metadata key, re-indexed), duplicate tx i, swap the witness sets / bodies of every
 //	      pair i<j, metadata moved to another index, invalid-tx list set to each of
@@ -36,8 +41,20 @@
 // commitment (own merkle tree, own segment hashing) must equal the value in the header —
 // this pins the reference to real chain data.
 //
-// Detection experiments (scratch copy /tmp/c34agent-repo, VERIF_REPO_OVERRIDE): see the
-// comment block at the end of this file.
+// Result on the unchanged tree: no violation. Everything that is accepted with validation
+// on although its bytes changed lies outside the commitment the property names: Byron
+// ssc_payload, Byron block extra data, the array framing of the Byron body / tx_payload /
+// [tx,witnesses] pairs (incl. a third element appended to a pair), bytes after the block
+// item. These are counted per class in coverage.accepted_with_committed_part_unchanged_by_class.
+//
+// Detection (scratch copy /tmp/c34agent-repo, VERIF_REPO_OVERRIDE, quick tier, deleted afterwards):
+//  1. byron/bodyproof.go validateTxProof: witnesses hash only shape-checked
+//       -> 6 keys, e.g. byron-main|SUB|tx_witnesses|bstr-content, byron-main|TREE|tx_payload-framing@d3:array|duplicate
+//  2. byron/bodyproof.go ValidateBodyProof: update payload hash only shape-checked
+//       -> byron-main|REENC|upd_payload|arr->indef (and the other forms), SUB/TREE keys in upd_payload
+//  3. dijkstra.go DijkstraBlockBody.UnmarshalCBOR: SetCbor dropped, so Hash() covers a re-encoding
+//       -> dijkstra|REENC|block_body|arr->1B/2B/4B/8B/indef
+//  (2 and 3 were applied together; the unchanged tree prints no VIOLATION.)
 package main
 
 import (
@@ -258,6 +275,9 @@ type fixture struct {
 	proj    [][]byte
 	segEnds []int    // end offset of each top-level element after the header
 	segName []string // names for keys
+
+	subOnce  sync.Once
+	subClass []string
 }
 
 func segNames(typ uint, n int) []string {
@@ -353,10 +373,31 @@ func genDijkstra(real space.Fixture) (space.Fixture, bool) {
 
 type mutant struct {
 	kind  string // SUB / REENC / TREE / TX
-	desc  string // full description (replay)
+	desc  string // full description (replay); for SUB mutants built lazily by describe()
 	class string // canonical class for the violation key
 	off   int    // offset in the original (SUB) or -1
 	bytes []byte
+}
+
+// describe builds the description of a mutant (lazily for substitutions: most of them are
+// never reported).
+func (m mutant) describe(f *fixture) string {
+	if m.desc != "" || m.kind != "SUB" {
+		return m.desc
+	}
+	f.prepSub()
+	return fmt.Sprintf("byte %d (%s) %02x->%02x", m.off, f.subClass[m.off], f.Cbor[m.off], m.bytes[m.off])
+}
+
+// prepSub computes, once per fixture, the class (region|role) of every byte offset.
+func (f *fixture) prepSub() {
+	f.subOnce.Do(func() {
+		roles := byteRoles(f.tree, len(f.Cbor))
+		f.subClass = make([]string, len(f.Cbor))
+		for off := f.bodyOff; off < len(f.Cbor); off++ {
+			f.subClass[off] = f.region(off) + "|" + roles[off]
+		}
+	})
 }
 
 var (
@@ -393,7 +434,7 @@ func judge(f *fixture, m mutant) {
 		nBoundReject.Add(1)
 		c.Eval(cls, "decodes-unvalidated,rejected-validated")
 		if m.kind != "SUB" {
-			c.Sample(map[string]any{"fixture": f.Name, "mutant": m.desc, "validation_on": errOn})
+			c.Sample(map[string]any{"fixture": f.Name, "mutant": m.describe(f), "validation_on": errOn})
 		}
 		return
 	}
@@ -402,7 +443,7 @@ func judge(f *fixture, m mutant) {
 	if !okP {
 		c.Eval(cls, "accepted,shape-unreadable-by-reference")
 		if nUnreadable.Add(1) <= 5 {
-			c.Note(fmt.Sprintf("mutant %s of %s is accepted but my reader cannot extract the committed part; not judged", m.desc, f.Name))
+			c.Note(fmt.Sprintf("mutant %s of %s is accepted but my reader cannot extract the committed part; not judged", m.describe(f), f.Name))
 		}
 		return
 	}
@@ -413,13 +454,13 @@ func judge(f *fixture, m mutant) {
 		acceptedMu.Unlock()
 		c.Eval(cls, "accepted,committed-part-unchanged")
 		if m.kind != "SUB" || nUncommitted.Load() < 4 {
-			c.Sample(map[string]any{"fixture": f.Name, "mutant": m.desc, "verdict": "accepted; bytes outside the commitment named by the property"})
+			c.Sample(map[string]any{"fixture": f.Name, "mutant": m.describe(f), "verdict": "accepted; bytes outside the commitment named by the property"})
 		}
 		return
 	}
 	c.Eval(cls, "ACCEPTED-WITH-CHANGED-COMMITTED-BYTES")
 	match, detail, _ := ownCommitmentMatches(f.Type, m.bytes)
-	replay := map[string]any{"fixture": f.Name, "type": f.Type, "kind": m.kind, "mutant": m.desc, "own_commitment_still_matches": match, "own_commitment_detail": detail}
+	replay := map[string]any{"fixture": f.Name, "type": f.Type, "kind": m.kind, "mutant": m.describe(f), "own_commitment_still_matches": match, "own_commitment_detail": detail}
 	if len(m.bytes) <= 40000 {
 		replay["block_hex"] = hex.EncodeToString(m.bytes)
 	} else if m.kind == "SUB" {
@@ -427,7 +468,7 @@ func judge(f *fixture, m mutant) {
 		replay["sub_value"] = m.bytes[m.off]
 	}
 	c.Violation(fmt.Sprintf("%s|%s|%s", eraName(f.Type), m.kind, m.class),
-		fmt.Sprintf("%s: %s still decodes with body validation ON although the bytes its header commits to changed (own recomputation of the commitment matches the header: %v; %s)", f.Name, m.desc, match, detail),
+		fmt.Sprintf("%s: %s still decodes with body validation ON although the bytes its header commits to changed (own recomputation of the commitment matches the header: %v; %s)", f.Name, m.describe(f), match, detail),
 		replay)
 }
 
@@ -440,6 +481,26 @@ var alphabet16 = func(b byte) []byte {
 	for _, v := range cand {
 		if !seen[v] && len(out) < 16 {
 			seen[v] = true
+			out = append(out, v)
+		}
+	}
+	return out
+}
+
+// alphabetN: the first n values of alphabet16 without allocating.
+func alphabetN(b byte, n int, out []byte) []byte {
+	cand := [...]byte{b ^ 0x01, b ^ 0x80, b + 1, b - 1, b ^ 0x20, b ^ 0x40, 0x00, 0xff, 0x80, 0xa0, 0x40, 0x60, 0xf6, 0x9f, 0x18, 0x1b, 0x01, 0x81, 0xa1, 0x41}
+	for _, v := range cand {
+		if len(out) >= n {
+			break
+		}
+		dup := v == b
+		for _, w := range out {
+			if w == v {
+				dup = true
+			}
+		}
+		if !dup {
 			out = append(out, v)
 		}
 	}
@@ -470,30 +531,6 @@ func byteRoles(root *space.Node, n int) []string {
 		}
 	}
 	return roles
-}
-
-func (f *fixture) subMutants(stride int, all255 bool, emit func(mutant)) {
-	roles := byteRoles(f.tree, len(f.Cbor))
-	for off := f.bodyOff; off < len(f.Cbor); off += stride {
-		orig := f.Cbor[off]
-		var vals []byte
-		if all255 {
-			for v := 0; v < 256; v++ {
-				if byte(v) != orig {
-					vals = append(vals, byte(v))
-				}
-			}
-		} else {
-			vals = alphabet16(orig)
-		}
-		for _, v := range vals {
-			mb := append([]byte{}, f.Cbor...)
-			mb[off] = v
-			emit(mutant{kind: "SUB", off: off,
-				desc:  fmt.Sprintf("byte %d (%s, %s) %02x->%02x", off, f.region(off), roles[off], orig, v),
-				class: f.region(off) + "|" + roles[off], bytes: mb})
-		}
-	}
 }
 
 // splice returns the original block with the bytes of node n replaced by sub.
@@ -941,7 +978,7 @@ func main() {
 		replay(c.Replay)
 		return
 	}
-	deadline := c.Deadline(48*time.Second, 8*time.Minute+30*time.Second)
+	deadline := c.Deadline(45*time.Second, 8*time.Minute+30*time.Second)
 
 	raws := space.Blocks(true)
 	for _, r := range raws {
@@ -1068,25 +1105,26 @@ func main() {
 	}
 	subGen := func(f *fixture, stride, nvals int, all bool) func(e func(mutant)) {
 		return func(e func(mutant)) {
-			roles := byteRoles(f.tree, len(f.Cbor))
+			f.prepSub()
+			var buf [16]byte
 			for off := f.bodyOff; off < len(f.Cbor); off += stride {
 				orig := f.Cbor[off]
 				var vals []byte
 				if all {
+					vals = make([]byte, 0, 255)
 					for v := 0; v < 256; v++ {
 						if byte(v) != orig {
 							vals = append(vals, byte(v))
 						}
 					}
 				} else {
-					vals = alphabet16(orig)[:nvals]
+					vals = alphabetN(orig, nvals, buf[:0])
 				}
 				for _, v := range vals {
-					mb := append([]byte{}, f.Cbor...)
+					mb := make([]byte, len(f.Cbor))
+					copy(mb, f.Cbor)
 					mb[off] = v
-					e(mutant{kind: "SUB", off: off,
-						desc:  fmt.Sprintf("byte %d (%s, %s) %02x->%02x", off, f.region(off), roles[off], orig, v),
-						class: f.region(off) + "|" + roles[off], bytes: mb})
+					e(mutant{kind: "SUB", off: off, class: f.subClass[off], bytes: mb})
 				}
 			}
 		}
@@ -1108,12 +1146,15 @@ func main() {
 		}
 		body := len(f.Cbor) - f.bodyOff
 		switch {
-		case thorough || body <= 64:
+		case body <= 64 || (thorough && f.Type == 1):
 			subPlan[f.Name] = "every offset x all 255 other values"
 			run(f, "SUB", subGen(f, 1, 0, true))
+		case thorough:
+			subPlan[f.Name] = "every offset x 16 values"
+			run(f, "SUB", subGen(f, 1, 16, false))
 		default:
-			subPlan[f.Name] = "every offset x 4 values"
-			run(f, "SUB", subGen(f, 1, 4, false))
+			subPlan[f.Name] = "every offset x 2 values"
+			run(f, "SUB", subGen(f, 1, 2, false))
 		}
 	}
 	for _, f := range fxs {
@@ -1130,9 +1171,15 @@ func main() {
 		}
 		body := len(f.Cbor) - f.bodyOff
 		switch {
-		case thorough:
+		case thorough && body <= 10000:
 			subPlan[f.Name] = "every offset x 16 values"
 			run(f, "SUB", subGen(f, 1, 16, false))
+		case thorough && body <= 20000:
+			subPlan[f.Name] = "every offset x 6 values"
+			run(f, "SUB", subGen(f, 1, 6, false))
+		case thorough:
+			subPlan[f.Name] = "every offset x 3 values"
+			run(f, "SUB", subGen(f, 1, 3, false))
 		case body <= 10000:
 			subPlan[f.Name] = "every 8th offset x 2 values"
 			run(f, "SUB", subGen(f, 8, 2, false))
@@ -1180,7 +1227,7 @@ func main() {
 	c.Set("mutants_decodable_without_validation", nDecodable.Load())
 	c.Set("of_those_rejected_with_validation", nBoundReject.Load())
 	c.Set("of_those_accepted_committed_part_unchanged", nUncommitted.Load())
-	c.Set("rule", "per fixture (header untouched): SUB every byte after the header x {all 255 other values (body<=64 B quick, <=2200 B thorough) | 4 (quick) / 16 (thorough) fixed type-confusing values}; EBB 2 values at every 8192nd/1024th offset + 16 values at the 5 framing bytes; REENC every single-header re-encoding of every item after the header; TREE delete/duplicate/swap-next/move-to-end of every child of every array/map after the header down to depth 3 (5 thorough) + extra block-array elements; TX consistent transaction-level edits (see file header). distinct = (fixture, kind, region, role/op class) among mutants that decode with validation off")
+	c.Set("rule", fmt.Sprintf("per fixture (header untouched): SUB single-byte substitutions after the header per coverage.substitution_plan (ordered fixed value alphabet, or all 255 other values); REENC every single-header re-encoding of every item after the header (depth bound %d, 0 = none); TREE delete/duplicate/swap-next/move-to-end of every child of every array/map after the header down to depth %d + extra block-array elements (EBB: first/second/middle/last id only); TX consistent transaction-level edits (drop/duplicate tx, swap witness sets/bodies/whole txs for every pair, witness set := {}, metadata re-keyed to every other index / cleared, invalid-tx list := [], [0], [n-1], [0..n-1], [n]; Byron: drop/duplicate pair, swap witnesses/bodies/pairs, payloads replaced by each other and by 80, 9fff, 8180; Dijkstra: drop/duplicate tx, invalid_transactions, peras certificate). distinct = (fixture, kind, region, role/op class) among mutants that decode with validation off", reencDepth, treeDepth))
 	c.Assume("blake2b-256 (golang.org/x/crypto) trusted; the reference commitment (own CBOR reader, own merkle tree, own segment hashing) is pinned to the real headers: it must reproduce the committed value of every real fixture, else the run aborts as INTERNAL-ERROR")
 	c.Assume("header bytes are never mutated (out of scope); ssc payload, Byron extra data and list framing are not in the commitment the property names: mutants confined to them are counted as 'accepted,committed-part-unchanged', not judged")
 	c.Finish()
